@@ -302,6 +302,9 @@ def gen_e2e_case(seed):
         if rnd.random() < 0.3:
             # the session logs in again as the other user, with its passive listener already open
             sess["relogin"] = {"user": "ub" if sess["user"] == "ua" else "ua", "pasv_first": rnd.random() < 0.8, "op_first": rnd.random() < 0.4}
+            # ... or even with a data connection already made, which the first transfer of the
+            # second login then uses: that transfer runs under the second user's limits
+            sess["relogin"]["dconn_first"] = rnd.random() < 0.4
         sessions.append(sess)
     return {"mode": "e2e", "seed": seed, "B": B, "server": srv, "users": users, "sessions": sessions}
 
@@ -338,9 +341,22 @@ def run_e2e_case(case):
                     if rl["op_first"]:
                         async with c.download_stream("src.bin") as st:
                             await st.read(B)
+                    dconn = None
+                    if rl.get("dconn_first"):
+                        code, lines = await c.command("EPSV", "229")
+                        port = int(lines[-1].rsplit("|", 2)[-2])
+                        dconn = await asyncio.open_connection("127.0.0.1", port)
+                        await asyncio.sleep(0.05)  # the server has accepted it
                     t1 = world.loop.time()
                     await c.login(rl["user"], "x")
                     info.setdefault("relogin", {})[f"s{i}"] = (t1, world.loop.time())
+                    if dconn is not None:
+                        await c.command("RETR src.bin", "1xx")
+                        while await dconn[0].read(4096):
+                            pass
+                        dconn[1].close()
+                        await c.command(None, "2xx", "1xx")
+                        info["transfers_over_a_data_connection_made_before_relogin"] = info.get("transfers_over_a_data_connection_made_before_relogin", 0) + 1
                 for (kind, n) in s["ops"]:
                     if kind == "list":
                         await c.list("/many")
@@ -444,7 +460,7 @@ def _result(world, case, viol, info, rec):
         "events": world.net.seq,
         "steps": world.loop.steps,
         "outcome": world.outcome,
-        "counters": {"ios_recorded": nrec, "ios_checked_against_a_limit": info.get("ios_checked", 0), "ios_actually_delayed": info.get("throttled_ios", 0), "ios_with_no_limit_checked_for_zero_delay": info.get("unlimited_ios", 0), f"mode.{case['mode']}": 1, "probe.run_longer_than_reset_rate": int(world.loop.time() - 1000.0 > 10.0)},
+        "counters": {"ios_recorded": nrec, "ios_checked_against_a_limit": info.get("ios_checked", 0), "ios_actually_delayed": info.get("throttled_ios", 0), "ios_with_no_limit_checked_for_zero_delay": info.get("unlimited_ios", 0), f"mode.{case['mode']}": 1, "probe.run_longer_than_reset_rate": int(world.loop.time() - 1000.0 > 10.0), "probe.transfers_over_a_data_connection_made_before_relogin": info.get("transfers_over_a_data_connection_made_before_relogin", 0)},
         "violations": out,
     }
     if case.get("want_sample"):
